@@ -352,6 +352,7 @@ class HelicityAmplitudeBuilder:
         self.__dynamics = DynamicsSelector(reaction)
         self._naming: NameGenerator = HelicityAmplitudeNameGenerator(reaction)
         self.__ingredients = _HelicityModelIngredients()
+        self.__symmetrized_from: dict[StateTransition, StateTransition] = {}
 
     @property
     def adapter(self) -> HelicityAdapter:
@@ -392,6 +393,7 @@ class HelicityAmplitudeBuilder:
 
     def formulate(self) -> HelicityModel:
         self.__ingredients.reset()
+        self.__symmetrized_from = {}
         main_intensity = self.__formulate_top_expression()
         kinematic_variables = self.adapter.create_expressions()
         if self.config.stable_final_state_ids is not None:
@@ -491,6 +493,7 @@ class HelicityAmplitudeBuilder:
                 # symmetrization over identical particles can result in a topology
                 # that is not in the reaction, but its kinematic variables are needed
                 self.adapter.register_topology(first_transition.topology)
+                self.__symmetrized_from[first_transition] = transition
                 expression = self.__formulate_sequential_decay(first_transition)
                 sequential_expressions.append(expression)
 
@@ -532,7 +535,10 @@ class HelicityAmplitudeBuilder:
     def __formulate_dynamics(
         self, transition: StateTransition, node_id: int
     ) -> sp.Expr:
-        decay = TwoBodyDecay.from_transition(transition, node_id)
+        # dynamics are assigned to the decays of the transitions in the reaction, which
+        # differ in state IDs from the chains that are symmetrized over identical particles
+        original_transition = self.__symmetrized_from.get(transition, transition)
+        decay = TwoBodyDecay.from_transition(original_transition, node_id)
         if decay not in self.dynamics:
             return sp.S.One
 
